@@ -270,6 +270,20 @@ impl Scenario for ConcSc {
                 }
                 *rec.stats.faults.entry("thread-preempted-at-event(sweep)").or_insert(0) += fired;
             }
+            // (b'') every other session in which the callers start with the same operation: one preemption BEFORE each atomic
+            // instruction the library executed in the serial run (lock acquisitions and releases, counters) — usually a
+            // handful of executions, none on a tree without shared state
+            else if same {
+                let mut fired = 0u64;
+                for t in 0..n {
+                    for e in dry.atomic_at.get(t).cloned().unwrap_or_default().into_iter().take(40) {
+                        let r = conc::run_controlled(&build(), plan.seed ^ e ^ ((t as u64) << 40) ^ 0xA70, &[Preempt { thread: t, event: e, steps: 0 }]);
+                        check(rec, &r.outs, "one-preemption-at-atomic-instruction");
+                        fired += r.preempts_fired;
+                    }
+                }
+                *rec.stats.faults.entry("thread-preempted-at-atomic-instruction(sweep)").or_insert(0) += fired;
+            }
             // (c) free-running (not replayable; sound because the oracle does not depend on the interleaving)
             if plan.get("free") == 1 && si == 0 {
                 let outs = conc::run_free(&build(), plan.seed ^ 0xF, 12);
@@ -306,6 +320,62 @@ impl Scenario for ConcSc {
                 rec.expect(&plan.property, "concurrent-callers-get-sequential-results", same, || {
                     format!("{:?} at-thread-exit g={} | call #{} ({}): alone the call returns {}, made {} it returns {}", e.op, e.g.name(), r, if r >= 2 { if early { "from a destructor registered before the thread's first library call" } else { "from a destructor registered after the thread's first library call" } } else { "before the teardown" }, brief(&e.out), if r >= 2 { "during thread teardown" } else { "normally" }, got.as_ref().map(brief).unwrap_or_else(|| "nothing (no result arrived)".into()))
                 });
+            }
+        }
+        // (e) a STALLED caller (one run in eight): one caller is parked in the middle of an honest verification while another
+        // caller of the process gets a lot of work done — F verifications under F keys the process has never seen (F = 140,
+        // 300; thorough also 1100: just above the capacities a bounded table of per-key material would plausibly have).
+        // The parked caller is resumed afterwards and must get what it gets alone. One execution per event of the parked
+        // call (strided to at most 16).
+        if plan.get("index") % 8 == 3 {
+            let victim = trace.iter().position(|t| matches!(t.op, Op::Verify | Op::PopVerify) && t.out.is_ok() && t.args.iter().map(|a| a.len()).sum::<usize>() < 4096);
+            if let Some(vi) = victim {
+                let v = &trace[vi];
+                let floods: &[usize] = if tier == Tier::Thorough { &[140, 300, 1100] } else { &[140, 300] };
+                let f = floods[(plan.seed % floods.len() as u64) as usize];
+                // the flood's material, made sequentially beforehand
+                let scheme = if v.op == Op::Verify { [v.args[0].first().copied().unwrap_or(0).min(2)] } else { [2u8] };
+                let mut flood: Vec<Call> = Vec::with_capacity(f);
+                for i in 0..f {
+                    let ikm = [&b"stalled-caller-flood"[..], &plan.seed.to_le_bytes(), &(i as u64).to_le_bytes()].concat();
+                    let Some(sk) = lib.call(v.g, Op::KeyFromHash, &[&ikm]).first().map(|b| b.to_vec()) else { break };
+                    let Some(pk) = lib.call(v.g, Op::PublicKey, &[&sk]).first().map(|b| b.to_vec()) else { break };
+                    let args = if v.op == Op::Verify {
+                        let m = v.args[2].clone();
+                        let Some(sg) = lib.call(v.g, Op::Sign, &[&sk, &scheme, &m]).first().map(|b| b.to_vec()) else { break };
+                        vec![sg, pk, m]
+                    } else {
+                        let Some(pp) = lib.call(v.g, Op::Pop, &[&sk]).first().map(|b| b.to_vec()) else { break };
+                        vec![pp, pk]
+                    };
+                    flood.push(Call { lib, g: v.g, op: v.op, args, clock: v.clock, route: 0 });
+                }
+                let mk = |flood: &Vec<Call>| -> Vec<Vec<Call>> {
+                    vec![
+                        vec![Call { lib, g: v.g, op: v.op, args: v.args.clone(), clock: v.clock, route: v.route }],
+                        flood.iter().map(|c| Call { lib, g: c.g, op: c.op, args: c.args.clone(), clock: c.clock, route: c.route }).collect(),
+                    ]
+                };
+                if flood.len() == f {
+                    // events of the victim's call (the victim runs first, alone)
+                    let dry = conc::run_controlled(&vec![mk(&flood).remove(0)], plan.seed ^ 0x57A1, &[]);
+                    let ev = dry.events.first().copied().unwrap_or(0);
+                    let stride = (ev / 16).max(1);
+                    let mut e = 1 + plan.seed % stride;
+                    let mut execs = 0u64;
+                    while e <= ev {
+                        let r = conc::run_controlled_from(&mk(&flood), plan.seed ^ e ^ 0x57A11, &[Preempt { thread: 0, event: e, steps: 0 }], Some(0));
+                        execs += 1;
+                        let got = r.outs[0].first();
+                        let same = matches!((got, &v.out), (Some(Out::Ok(a)), Out::Ok(b)) if a == b);
+                        rec.expect(&plan.property, "concurrent-callers-get-sequential-results", same, || format!("{:?} stalled-caller g={} | parked at its event {} of {} while another caller made {} verifications under fresh keys: alone the call returns {}, resumed it returns {}", v.op, v.g.name(), e, ev, f, brief(&v.out), got.map(brief).unwrap_or_default()));
+                        let bad = r.outs[1].iter().filter(|o| !o.is_ok()).count();
+                        rec.expect(&plan.property, "concurrent-callers-get-sequential-results", bad == 0, || format!("{:?} stalled-caller g={} | {} of the {} honest verifications made while another caller was parked were refused", v.op, v.g.name(), bad, f));
+                        e += stride;
+                    }
+                    *rec.stats.faults.entry("caller-stalled-mid-call-while-others-work").or_insert(0) += execs;
+                    *rec.stats.probes.entry("events-at-atomic-instructions-of-the-library").or_insert(0) += dry.atomic_events;
+                }
             }
         }
         rec.sample(|| format!("{} traced calls of class {}; {} sessions", trace.len(), inner_class, plan.steps.len()));
